@@ -62,7 +62,8 @@ def run(chk):
     # ---------------- R1 / R2
     T = flow.Terms(p, hp)
     tbl = []
-    for bb, t in hp.calls():
+    # (on the inlined receiving side: the table accesses may sit in private helpers — `handle_init`, `handle_cont`)
+    for bb, t in HP.calls():
         c = t.get("callee") or ""
         if "HashMap" in c and c.rsplit("::", 1)[-1] in ("insert", "get_mut", "get", "remove", "entry", "contains_key", "clear", "retain", "drain", "values_mut", "iter_mut"):
             tbl.append((bb, t, c.rsplit("::", 1)[-1]))
@@ -113,41 +114,56 @@ def run(chk):
         else:
             ret_ok = False
     chk.ob("R1 channel frame rule", "R1|returned-message-from-this-packet-or-entry", ret_ok and n_some >= 2, where(hp), "every returned message is built from this packet or is the removed entry of this packet's channel: %s (%d sites)" % (ret_ok, n_some))
-    # continuation arm
-    gm = [(bb, t) for bb, t, m in tbl if m == "get_mut"]
-    muts = [(bb, t, m) for bb, t, m in tbl if m in ("insert", "remove", "entry")]
-    if chk.require("R2 continuation without init", "R2|get_mut", len(gm) == 1, where(hp), "expected one get_mut on the channel table"):
+    # continuation arm — read on the body that does the lookup: handle_packet itself, or the one private helper it hands the
+    # continuation packet to (`handle_cont`); `Message::extend` is a call there
+    def _tbl_of(b_):
+        out_ = []
+        for bb, t in b_.calls():
+            c_ = t.get("callee") or ""
+            if "HashMap" in c_ and c_.rsplit("::", 1)[-1] in ("insert", "get_mut", "get", "remove", "entry", "contains_key", "clear", "retain", "drain", "values_mut", "iter_mut"):
+                out_.append((bb, t, c_.rsplit("::", 1)[-1]))
+        return out_
+    RB = hp
+    if not any(m == "get_mut" for bb, t, m in _tbl_of(hp)):
+        cands_ = [p.bodies[x] for x in (getattr(HP, "inlined_callees", None) or []) if x in p.bodies and any(m == "get_mut" for bb, t, m in _tbl_of(p.bodies[x]))]
+        if len(cands_) == 1:
+            RB = cands_[0]
+            chk.touched(RB)
+    tbl2 = _tbl_of(RB)
+    gm = [(bb, t) for bb, t, m in tbl2 if m == "get_mut"]
+    muts = [(bb, t, m) for bb, t, m in tbl2 if m in ("insert", "remove", "entry")]
+    if chk.require("R2 continuation without init", "R2|get_mut", len(gm) == 1, where(RB), "expected one get_mut on the channel table"):
         gb = gm[0][0]
-        Th = flow.Terms(p, hp)
+        Th = flow.Terms(p, RB)
         is_lookup = lambda x: isinstance(x, tuple) and len(x) == 4 and x[0] == "call" and x[1].endswith("::get_mut")
-        found_edges, missing_edges = flow.success_edges(p, hp, is_lookup, Th)
+        found_edges, missing_edges = flow.success_edges(p, RB, is_lookup, Th)
         ok = bool(found_edges) and bool(missing_edges)
         dbg = ""
         if ok:
             after_none = set()
             for sb, sc in missing_edges:
-                after_none |= hp.reachable(sc, follow_yield_drop=False)
+                after_none |= RB.reachable(sc, follow_yield_drop=False)
             mut_after = [m for bb, t, m in muts if bb in after_none]
-            ext_after = [bb for bb, t in hp.calls() if names.call_is(t, "Message::extend") and bb in after_none]
+            ext_after = [bb for bb, t in RB.calls() if names.call_is(t, "Message::extend") and bb in after_none]
             # every outcome on the "no entry" side is None
-            exclusive = [s for s in flow.outcome_sites(hp) if s["path"] == () and s["bb"] in after_none and flow.cut_by_edges(hp, 0, [s["bb"]], missing_edges)]
+            exclusive = [s for s in flow.outcome_sites(RB) if s["path"] == () and s["bb"] in after_none and flow.cut_by_edges(RB, 0, [s["bb"]], missing_edges)]
             only_none = bool(exclusive) and all(s["kind"] in ("None", "residual") for s in exclusive)
             ok = not mut_after and not ext_after and only_none
             dbg = (mut_after, ext_after, only_none)
             # in the continuation arm the only mutations are extend (of this entry) and remove (of this key), both after the lookup succeeded
-            cont_muts = [bb for bb, t, m in muts if m != "insert"] + [bb for bb, t in hp.calls() if names.call_is(t, "Message::extend")]
-            ok = ok and all(flow.cut_by_edges(hp, 0, [bb], found_edges) for bb in cont_muts)
+            cont_muts = [bb for bb, t, m in muts if m != "insert"] + [bb for bb, t in RB.calls() if names.call_is(t, "Message::extend")]
+            ok = ok and all(flow.cut_by_edges(RB, 0, [bb], found_edges) for bb in cont_muts)
         # a continuation completes (and delivers) the message only when extend() returned Ok(true)
         is_ext = lambda x: isinstance(x, tuple) and len(x) == 4 and x[0] == "call" and names.is_(x[1], "Message::extend")
-        ext_ok, ext_bad = flow.success_edges(p, hp, is_ext, Th, N=N)
+        ext_ok, ext_bad = flow.success_edges(p, RB, is_ext, Th, N=N)
         rem = [bb for bb, t, m in muts if m == "remove"]
-        deliv = bool(ext_ok) and bool(rem) and all(flow.cut_by_edges(hp, 0, [bb], ext_ok) for bb in rem)
+        deliv = bool(ext_ok) and bool(rem) and all(flow.cut_by_edges(RB, 0, [bb], ext_ok) for bb in rem)
         if deliv:
             for bb in rem:
-                cds = normal.conditions(N, p, hp, bb, Th) or []
+                cds = normal.conditions(N, p, RB, bb, Th) or []
                 deliv = deliv and any(flow.is_payload_of(flow.bool_atom(t, l)[0], is_ext) and flow.bool_atom(t, l)[1] is True for sb2, l, t in cds)
-        chk.ob("R2 continuation without init", "R2|delivered-only-when-complete", deliv, where(hp, rem[0]) if rem else where(hp), "the entry is removed and returned only past extend(..) == Ok(true): %s" % deliv)
-        chk.ob("R2 continuation without init", "R2|none-before-mutation", ok, where(hp, gb), "lookup None → return None; remove/extend only past the successful lookup: %s %s" % (ok, dbg))
+        chk.ob("R2 continuation without init", "R2|delivered-only-when-complete", deliv, where(RB, rem[0]) if rem else where(RB), "the entry is removed and returned only past extend(..) == Ok(true): %s" % deliv)
+        chk.ob("R2 continuation without init", "R2|none-before-mutation", ok, where(RB, gb), "lookup None → return None; remove/extend only past the successful lookup: %s %s" % (ok, dbg))
 
     # ---------------- R3
     consts = {"MAX_PACKET_SIZE": 64, "InitHeader::HEADER_SIZE": 7, "InitHeader::MAX_PAYLOAD_SIZE": 57, "ContHeader::HEADER_SIZE": 5, "ContHeader::MAX_PAYLOAD_SIZE": 59, "PACKET_DISCRIPTOR_BIT": 0x80}
@@ -416,11 +432,11 @@ def run(chk):
                 bad_d = (n_, d_)
             if n_ <= PROTO_MAX - 1 and p_ != (n_ > 57) and bad_p is None:
                 bad_p = (n_, p_)
-        chk.ob("R7 delivery point", "R7|init-packet|delivered-iff-it-holds-the-whole-payload", und is None and bad_d is None, where(hp, ret_sites[0]),
+        chk.ob("R7 delivery point", "R7|init-packet|delivered-iff-it-holds-the-whole-payload", und is None and bad_d is None, where(HP, ret_sites[0]),
                ("a site condition could not be evaluated (declared length %s): %s" % (und, undecided[:1])) if und is not None else
                ("declared length %d: the message is %s by the call that handles its initialisation packet (a payload of up to 57 bytes is complete with that packet, a longer one is not)" % (bad_d[0], "returned" if bad_d[1] else "not returned")) if bad_d else
                "for each of the 65536 declared lengths: returned by the initialisation call exactly when the length is <= 57")
-        chk.ob("R7 delivery point", "R7|init-packet|longer-messages-parked", und is None and bad_p is None, where(hp, ins_sites[0]),
+        chk.ob("R7 delivery point", "R7|init-packet|longer-messages-parked", und is None and bad_p is None, where(HP, ins_sites[0]),
                ("a site condition could not be evaluated (declared length %s)" % und) if und is not None else
                ("declared length %d (the sender accepts up to %d): the message is %s" % (bad_p[0], PROTO_MAX - 1, "parked" if bad_p[1] else "neither returned nor parked — its continuation packets will find no message in progress")) if bad_p else
                "for each declared length in 58..=%d: parked under the packet's channel" % (PROTO_MAX - 1))
